@@ -2,6 +2,7 @@
 mod auth;
 mod engine;
 mod oracle;
+mod probes;
 mod props;
 mod world;
 
